@@ -62,13 +62,57 @@ void check_cartesian(vf::Ctx& c, const ECEFConverter& conv, const georef::Ell& E
     c.violation("ECEFConverter.toWGS84.vsDefinition", params, vf::JO().num("lat", g.latitude).num("want_lat", r.lat).num("lon", g.longitude).num("want_lon", r.lon).num("alt", g.altitude).num("want_alt", r.h).done());
 }
 
+
+// ---- T: trajectories on ONE long-lived converter ---------------------------------------------------------------------------------
+// consecutive nearby inputs at graded step sizes (a receiver that stands still, creeps, walks, drives); every answer of the long-lived
+// converter must satisfy the same point-wise clauses as a fresh one (forward map vs definition, both round trips)
+void point_checks(vf::Ctx& c, const ECEFConverter& conv, const georef::Ell& E, double lat, double lon, double h, const std::string& params) {
+  c.eval(); c.nontrivial();
+  Eigen::Vector3d P = conv.toECEF(makeGeodeticCoordinates(lat, lon, h));
+  for (int i = 0; i < 3; ++i) c.obs(P[i]);
+  georef::V3 ref = georef::ecef(E, lat, lon, h);
+  long double dref = georef::dist({P[0], P[1], P[2]}, ref);
+  c.note_max("trajectory_forward_vs_definition_m", (double)dref);
+  if (!(dref <= 1e-6L)) { c.violation("ECEFConverter.toECEF.vsDefinition", params, vf::JO().num("vs_reference_m", dref).done()); return; }
+  GeodeticCoordinates r = conv.toWGS84(P);
+  long double elat = fabsl((long double)r.latitude - lat), elon = georef::angdiff(r.longitude, lon), eh = fabsl((long double)r.altitude - h);
+  c.note_max("trajectory_roundtrip_lat_rad", (double)elat); c.note_max("trajectory_roundtrip_h_m", (double)eh);
+  if (!(elat <= 1e-9L) || !(elon <= 1e-9L) || !(eh <= 1e-3L)) { c.violation("ECEFConverter.toWGS84(toECEF(g))", params, vf::JO().num("lat_err", elat).num("lon_err", elon).num("h_err", eh).done()); return; }
+  check_cartesian(c, conv, E, P, params);
+}
+const double kTrajSteps[] = {1e-12, 2.5e-10, 1e-9, 4e-9, 2.5e-8, 1.3e-7, 6e-7, 1e-5, 1e-4, 1.57e-3};   // rad; x 6.4e6 m: 6 um ... 10 km
+const int kNTrajSteps = 10;
+void trajectory(vf::Ctx& c, size_t ie, size_t ilat, bool th) {
+  auto ells = ellipsoids(); const EllCfg& ec = ells[ie];
+  const double lats[] = {0.0, 45.78, -37.0, 61.17, 78.0, -89.0};
+  double lat0 = lats[ilat] * M_PI / 180, lon0 = -1.0038 + 0.4 * ilat;
+  EarthEllipsoid lib(ec.a, ec.b); georef::Ell E{ec.a, ec.b};
+  ECEFConverter conv(lib);   // one converter for every trajectory of the case
+  int len = th ? 400 : 60;
+  for (int is = 0; is < kNTrajSteps; ++is) for (int dir = 0; dir < 4; ++dir) for (int pat = 0; pat < 2; ++pat) {
+    double s = kTrajSteps[is];
+    for (int i = 0; i < len; ++i) {
+      double f = pat == 0 ? (double)i : (double)((i % 2) ? (i + 1) / 2 : -(i / 2));   // drift / widening back-and-forth
+      double lat = lat0 + (dir == 0 || dir == 2 ? f * s * (lat0 > 1.4 || lat0 < -1.4 ? (lat0 > 0 ? -1 : 1) : 1) : 0), lon = lon0 + (dir == 1 || dir == 2 ? f * s : 0), h = 120.0 + (dir == 3 ? f * s * 6.4e6 : 0);
+      if (std::fabs(lat) > 89.9 * M_PI / 180 || h < -11000 || h > 100000) break;
+      std::string params = vf::JO().str("explorer", "trajectory").str("ellipsoid", ec.name).num("start_lat", lat0).num("step_rad", s).str("direction", dir == 0 ? "north" : dir == 1 ? "east" : dir == 2 ? "north-east" : "up").str("pattern", pat ? "back-and-forth" : "drift").i("step_index", i).done();
+      uint64_t before = c.c.violations;
+      point_checks(c, conv, E, lat, lon, h, params);
+      if (c.c.violations != before) break;
+    }
+    c.traces();
+  }
+}
+
 }  // namespace
 
-uint64_t vf_ncases(const std::string& tier) { return ellipsoids().size() * latitudes(tier == "thorough").size(); }
+const size_t kTrajEll[] = {0, 1, 3};   // three ellipsoids of the catalogue
+uint64_t vf_ncases(const std::string& tier) { return ellipsoids().size() * latitudes(tier == "thorough").size() + 18; }
 
 void vf_run(uint64_t idx, const std::string& tier, vf::Ctx& c) {
   bool th = tier == "thorough";
   auto ells = ellipsoids(); auto lats = latitudes(th); auto lons = longitudes(th);
+  if (idx >= ells.size() * lats.size()) { size_t k = idx - ells.size() * lats.size(); trajectory(c, kTrajEll[k / 6], k % 6, th); return; }
   const EllCfg& ec = ells[idx % ells.size()];
   double lat = lats[idx / ells.size()];
   EarthEllipsoid lib(ec.a, ec.b);
@@ -130,6 +174,7 @@ void vf_run(uint64_t idx, const std::string& tier, vf::Ctx& c) {
 
 std::string vf_case_params(uint64_t idx, const std::string& tier) {
   auto ells = ellipsoids(); auto lats = latitudes(tier == "thorough");
+  if (idx >= ells.size() * lats.size()) return vf::JO().u("case", idx).str("explorer", "trajectory").u("k", idx - ells.size() * lats.size()).done();
   return vf::JO().u("case", idx).str("ellipsoid", ells[idx % ells.size()].name).num("a", ells[idx % ells.size()].a).num("b", ells[idx % ells.size()].b).num("lat", lats[idx / ells.size()]).done();
 }
 
@@ -137,6 +182,7 @@ std::string vf_describe(const std::string& tier) {
   bool th = tier == "thorough";
   vf::JO o;
   o.u("ellipsoids", ellipsoids().size()).u("latitudes", latitudes(th).size()).u("longitudes", longitudes(th).size()).vec("heights_m", std::vector<double>(kHeights, kHeights + 7));
+  o.str("trajectories", std::string("one long-lived converter per (3 ellipsoids x 6 start latitudes): consecutive inputs spaced by {1e-12,2.5e-10,1e-9,4e-9,2.5e-8,1.3e-7,6e-7,1e-5,1e-4,1.57e-3} rad (6 um .. 10 km) x {north, east, north-east, up} x {drift, widening back-and-forth} x ") + (th ? "400" : "60") + " steps; every answer must satisfy the point-wise clauses (forward map vs definition 1 um, round trips 1e-9 rad / 1 mm)");
   o.str("ellipsoid_set", "library GRS80, Clarke 1880 IGN, International 1924, a0*(1+{-1e-3,0,1e-3}) x f in {0 (sphere), 1/600, 1/298.257222101, 1/290}");
   o.str("latitudes_deg", th ? "-89.9..89.9 step 0.1, +-(89..89.9) step 0.01, plus 0, +-1e-9, +-45, +-80, +-85, +-89, +-89.9, 33.3" : "-89.9..89.9 step 5 plus 0, +-1e-9, +-45, +-80, +-85, +-89, +-89.9, 33.3");
   o.str("longitudes_rad", th ? "step 1 deg; +-pi exactly; +-(pi-1e-k) k=3..15; 0, +-pi/2 and their +-1e-k neighbours k=3,6,9,12,15" : "step 15 deg; +-pi exactly; +-(pi-1e-k) k=3..15; 0, +-pi/2 and their +-1e-k neighbours k=3,6,9,12,15");
